@@ -98,6 +98,19 @@ Spec == Init /\ [][Next]_vars
 Safe == AbsOk(lastRep, lastOut)
 SafeCex == IF Safe THEN TRUE ELSE PrintT(ToJson([cex |-> hist, ref |-> RxRef])) /\ FALSE
 
+(* TrajectoryAbs, second half: what the decoder holds and answers for one aircraft is what it would   *)
+(* hold and answer had that aircraft's reports been delivered alone (fixed receiver reference).      *)
+RECURSIVE Alone(_, _, _)
+Alone(a, h, n) ==        \* [st, out] after the first n entries of h, restricted to aircraft a
+  IF n = 0 THEN [st |-> Fresh, out |-> NONE]
+  ELSE LET p == Alone(a, h, n - 1)
+       IN  IF h[n].ac = a THEN DesignStep(p.st, h[n]) ELSE p
+Independent ==
+  \A a \in Aircraft :
+    LET r == Alone(a, hist, Len(hist))
+    IN  /\ (\E i \in 1..Len(hist) : hist[i].ac = a) => st[Key(a)] = r.st
+        /\ (lastRep.ac = a => lastOut = r.out)
+
 (* step G (b): every history of exactly EmitLen delivered reports, printed once *)
 CONSTANT EmitLen
 EmitHist == IF nrep = EmitLen /\ ~flush THEN PrintT(ToJson([h |-> hist, ref |-> RxRef])) ELSE TRUE
